@@ -87,6 +87,15 @@ def reactionCheck (param : PyVal α) (order : Int) : Except Err Unit :=
       discard (toUnitlessScalar (param.div ((M.pow (1 - order)).div s)) (.qty Quantity.dimensionless))
     | _, _ => .error .attributeError
 
+/-- the unit-related part of `Reaction.__init__` (chemistry.py 487-493): `checks` and `dont_check` both given → ValueError;
+    `checks = default_checks ^ dont_check` when `checks` is None; every selected check runs with `throw=True`.
+    `unitSelected`: `'consistent_units'` is among the checks that run (given explicitly, or not opted out of); the other
+    checks are assumed to pass. -/
+def reactionCtor (param : PyVal α) (order : Int) (checksGiven dontCheckGiven unitSelected : Bool) : Except Err Unit :=
+  if checksGiven && dontCheckGiven then .error .valueError
+  else if unitSelected then reactionCheck param order
+  else .ok ()
+
 /-- `check_consistent_units(throw=False)`: `except Exception: return False` -/
 def reactionCheckBool (param : PyVal α) (order : Int) : Bool :=
   match reactionCheck param order with
